@@ -25,6 +25,10 @@ def block_value(n):
         if not st or st[-1]["k"] != "expr" or st[-1].get("semi"):
             return None
         n = st[-1]["e"]
+    if n is not None and n["k"] == "if" and n["cond"]["k"] == "letcond" and n.get("else") is not None:
+        # `if let P = e { A } else { B }` is `match e { P => A, _ => B }`
+        l = n.get("l", 0)
+        return {"k": "match", "l": l, "e": n["cond"]["e"], "arms": [{"l": l, "pat": n["cond"]["pat"], "guard": None, "body": n["then"]}, {"l": n["else"].get("l", l), "pat": {"k": "wild", "l": l}, "guard": None, "body": n["else"]}]}
     return n
 
 
@@ -679,6 +683,47 @@ def j8(rep, src):
                 rep.violation("J8", key, "<DataType as Variant>::%s does not dispatch DataType::%s to the variant's own %s (it falls to the default arm)" % (name, v, name), f.where())
 
 
+def j9(rep, src, impls):
+    """Only the empty set injects into the empty type."""
+    rep.rule(
+        "J9",
+        "`impl Injection for Base<X, DataType>::super_image`: an arm that accepts the co-domain `DataType::Null` (answers `Ok(..)`) is guarded by the emptiness of the domain / of the set "
+        "(`if self.domain().is_empty()`, `if set.is_empty()`)",
+        floor=7,
+        necessary="DataType::is_subset_of decides `(s, Null)` by injecting s into Null: an unguarded arm makes every boolean type a subset of the empty type, `bool == null`, "
+        "and the inclusion holds for struct / optional / list types built on it - each with a witness value on the left that is not on the right",
+    )
+    for ty, fns in sorted(impls.items()):
+        a = base_args(ty)
+        if not a or a[1] != "DataType" or "super_image" not in fns:
+            continue
+        f = fns["super_image"]
+        k = 0
+        for m in find(f.body, "match"):
+            for arm in m["arms"]:
+                pats = arm["pat"]["cases"] if arm["pat"]["k"] == "or" else [arm["pat"]]
+                for pt in pats:
+                    hit = None
+                    if pt["k"] == "path" and pt["segs"][-2:] == ["DataType", "Null"]:
+                        hit = pt
+                    elif pt["k"] == "tuple":
+                        # (domain, co-domain, ..) tables: the co-domain component is Null while the domain component is a payload variant
+                        comps = pt["elems"]
+                        if len(comps) >= 2 and comps[1]["k"] == "path" and comps[1]["segs"][-2:] == ["DataType", "Null"] and comps[0]["k"] == "tuplestruct":
+                            hit = pt
+                    if hit is None:
+                        continue
+                    body = arm["body"]
+                    answers_ok = any(c["k"] == "call" and path_of(c["f"]) == "Ok" for c in walk(body)) or not any(c["k"] == "call" and (path_of(c["f"]) or "").startswith("Err") for c in walk(body))
+                    g = show(arm["guard"], 0).replace(" ", "") if arm.get("guard") else ""
+                    guarded = "is_empty()" in g
+                    k += 1
+                    key = "%s::super_image@Null%s" % (ty, "" if k == 1 else "#%d" % k)
+                    rep.instance("J9", key, {"impl": ty, "guard": g or None, "answers_ok": answers_ok}, nontrivial=False)
+                    if answers_ok and not guarded:
+                        rep.violation("J9", key, "%s::super_image accepts the empty type as co-domain without testing that the set is empty: every %s type becomes a subset of Null" % (ty, a[0]), "src/%s:%d" % (IJ, arm["l"]))
+
+
 # ------------------------------------------------------------------------------------------------ J3 (MIR)
 
 INT_BITS = {"i8": 8, "i16": 16, "i32": 32, "i64": 64, "i128": 128, "isize": 64, "u8": 8, "u16": 16, "u32": 32, "u64": 64, "u128": 128, "usize": 64}
@@ -990,6 +1035,7 @@ def run(rep):
     j6(rep, src, impls)
     j7(rep, src)
     j8(rep, src)
+    j9(rep, src, impls)
     rep.extra["primitive_pairs"] = {"%s->%s" % k: v[0] for k, v in PAIRS.items()}
     from .util_enum import n1
 
